@@ -60,6 +60,9 @@ func directed(newState bool) []*Seq {
 		// by 5440575): every crash image of it must be consistent and take the next block.
 		{NewState: newState, Engine: "memory", Boundary: true, Ops: []Op{st(1, 3), st(2, 4), st(1, 4), {K: "R"}, {K: "R"}, st(2, 3), st(1, 3)}},
 		{NewState: newState, Engine: "memory", Boundary: true, Ops: []Op{st(1, 3), st(2, 4), {K: "G"}, st(1, 4), {K: "U"}, {K: "R"}, st(2, 3)}},
+		// snapshot before the window end, the window's last block, ungraceful restart: the filter initialisation
+		// fills from the snapshot, rolls over and re-writes the window with a direct Put (an extra commit)
+		{NewState: newState, Engine: "memory", Boundary: true, Ops: []Op{st(1, 4), {K: "N"}, st(2, 4), {K: "U"}, st(2, 3)}},
 		// failed store of 8192 (first block of a window), revert of 8191, store, restart
 		{NewState: newState, Engine: "memory", Boundary: true, Ops: []Op{st(2, 3), st(2, 4), st(1, 3), {K: "R"}, st(2, 4), {K: "U"}, st(2, 4)}},
 	}
